@@ -103,7 +103,7 @@ class Checker:
             printed.add(v["key"])
             print("KNOWN-FINDING: property=%s %s [%s at %s]" % (self.prop, k["what"], v["key"], v["where"]))
         # evidence of runs against a scratch copy (selftest, seeded changes) never overwrites the real one
-        scratch = os.environ.get("VERIF_REPO", "/repo") != "/repo"
+        scratch = os.environ.get("VERIF_REPO", "/repo") != "/repo" or bool(os.environ.get("VERIF_SCRATCH_EVIDENCE"))
         evdir = os.path.join(VERIF, ".cache/evidence-scratch" if scratch else "evidence")
         os.makedirs(evdir, exist_ok=True)
         vio_path = os.path.join(evdir, "%s.violations.json" % self.prop)
